@@ -483,8 +483,9 @@ Definition P_ecase (c : ecase) : bool :=
             | _ => true
             end
           else
-            (* rejected before execution: nothing was created *)
-            negb (everdict_eqb (ec_verdict c) EPass) && match ec_created c with [] => true | _ => false end
+            (* rejected before execution (syntax error or VALIDATION_ERROR): nothing was created *)
+            (match ec_verdict c with ESyntax | EValidation => true | _ => false end) &&
+            match ec_created c with [] => true | _ => false end
       | None => true
       end
   | EKRead =>
@@ -558,3 +559,164 @@ Definition path_symbol_of (s : sdv) : option sym :=
   | SRef n _ _ _ => Some n
   | _ => None
   end.
+
+(** the guard on an argument: a relativity given explicitly comes with a PATH-STRING that is not absolute
+    ("If PATH-STRING is an absolute path, then RELATIVITY must not be given"); -rel-here is left out *)
+Definition explicit_ok (tbl : table) (a : parg) : bool :=
+  match pa_rel a with
+  | RNone => true
+  | RHere => false
+  | _ => negb (own_string_abs tbl a)
+  end.
+
+
+(** the guard on every path definition, in the table it is defined in *)
+Fixpoint defs_explicit_ok (here : text) (tbl : table) (defs : list (sym * sdef)) : bool :=
+  match defs with
+  | [] => true
+  | (n, d) :: rest =>
+      (match d with SDPath a => explicit_ok tbl a | _ => true end) &&
+      match compile_def here d with
+      | Some v => defs_explicit_ok here ((n, v) :: tbl) rest
+      | None => true
+      end
+  end.
+
+
+(** * Instructions with TWO path arguments (copy SRC DST; file DST = -contents-of SRC), possibly sharing symbols *)
+Record i2case := I2Case {
+  i2_here : text;
+  i2_defs : list (sym * sdef);
+  i2_src_conf : conf;
+  i2_src : parg;
+  i2_dst_conf : conf;              (* live configuration of the destination *)
+  i2_dst : parg;
+  i2_dst_first : bool;             (* the instruction reports the destination's references first *)
+  i2_obs_defs : option (nat * dkind);
+  i2_obs : iobs }.
+
+Definition two_refs (dst_first : bool) (ssrc sdst : sdv) : list (sym * restr) :=
+  if dst_first then sdv_refs sdst ++ sdv_refs ssrc else sdv_refs ssrc ++ sdv_refs sdst.
+
+Definition model_i2run (c : i2case) : option (nat * dkind) * iobs :=
+  let (df, tbl) := run_defs (i2_here c) [] 0 (i2_defs c) in
+  (df,
+   match parse_path (i2_src_conf c) (i2_src c), parse_path (i2_dst_conf c) (i2_dst c) with
+   | PParsed ssrc, PParsed sdst =>
+       match df with
+       | Some _ => IParsedOnly
+       | None => match validate_refs tbl (two_refs (i2_dst_first c) ssrc sdst) with
+                 | VAccept => IAccepted
+                 | VReject => IRejected
+                 | VCrash => IValidationCrash
+                 end
+       end
+   | PSyntaxError, _ | _, PSyntaxError => ISyntaxError
+   | _, _ => IParseCrash
+   end).
+
+Definition option_clause (creates : bool) (cf : conf) (a : parg) (is_syntax_error : bool) : bool :=
+  match pa_rel a with
+  | ROpt r =>
+      let acc := if creates then v_rels creation_variants else v_rels (c_acc cf) in
+      if rel_in r acc then true else is_syntax_error
+  | _ => true
+  end.
+
+(** a destination whose documented relativity is not act, tmp or cd must not be accepted - whatever else
+    the instruction refers to *)
+Definition P_i2case (c : i2case) : bool :=
+  let syn := match i2_obs c with ISyntaxError => true | _ => false end in
+  option_clause true (i2_dst_conf c) (i2_dst c) syn &&
+  option_clause false (i2_src_conf c) (i2_src c) syn &&
+  match i2_obs c with
+  | IAccepted => match spec_meaning (i2_here c) (i2_defs c) (c_default (i2_dst_conf c)) (i2_dst c) with
+                 | Some m => creation_rel_ok (meaning_rel m)
+                 | None => true
+                 end
+  | _ => true
+  end.
+
+Definition check_i2case (c : i2case) : bool * bool :=
+  (let m := model_i2run c in
+   option_eqb (fun x y => Nat.eqb (fst x) (fst y) && dkind_eqb (snd x) (snd y)) (fst m) (i2_obs_defs c) && iobs_eqb (snd m) (i2_obs c),
+   P_i2case c).
+
+(** program level: the created file carries the contents of the source that was read *)
+Record e2case := E2Case {
+  e2_here : text;
+  e2_defs : list (sym * sdef);
+  e2_src_conf : conf;
+  e2_src : parg;
+  e2_dst_conf : conf;
+  e2_dst : parg;
+  e2_dst_first : bool;
+  e2_env : env;
+  e2_files : list (text * N);
+  (* observed *)
+  e2_verdict : everdict;
+  e2_created : list text;
+  e2_read : option N;
+  e2_home_changed : bool }.
+
+Definition model_e2run (c : e2case) : everdict * list text * option N * bool :=
+  match compile_defs (e2_here c) (e2_defs c), parse_path (e2_src_conf c) (e2_src c), parse_path (e2_dst_conf c) (e2_dst c) with
+  | None, _, _ => (ESyntax, [], None, true)
+  | _, PSyntaxError, _ => (ESyntax, [], None, true)
+  | _, _, PSyntaxError => (ESyntax, [], None, true)
+  | Some vals, PParsed ssrc, PParsed sdst =>
+      match validate_defs [] vals with
+      | (VReject, _) => (EValidation, [], None, true)
+      | (VCrash, _) => (EOther, [], None, true)
+      | (VAccept, tbl) =>
+          match validate_refs tbl (two_refs (e2_dst_first c) ssrc sdst) with
+          | VReject => (EValidation, [], None, true)
+          | VCrash => (EOther, [], None, true)
+          | VAccept =>
+              match resolve tbl ssrc, resolve tbl sdst with
+              | Ok ds, Ok dd =>
+                  match lookup_file (e2_files c) (pp_str (normalize (ddv_value (e2_env c) ds))) with
+                  | Some t => (EPass, [pp_str (normalize (ddv_value (e2_env c) dd))], Some t, true)
+                  | None => (EOther, [], None, false)
+                  end
+              | _, _ => (EOther, [], None, true)
+              end
+          end
+      end
+  | _, _, _ => (EOther, [], None, true)
+  end.
+
+Definition rejected_before_execution (v : everdict) : bool :=
+  match v with ESyntax | EValidation => true | _ => false end.
+
+Definition P_e2case (c : e2case) : bool :=
+  let md := spec_meaning (e2_here c) (e2_defs c) (c_default (e2_dst_conf c)) (e2_dst c) in
+  let ms := spec_meaning (e2_here c) (e2_defs c) (c_default (e2_src_conf c)) (e2_src c) in
+  negb (e2_home_changed c) &&
+  option_clause true (e2_dst_conf c) (e2_dst c) (everdict_eqb (e2_verdict c) ESyntax) &&
+  option_clause false (e2_src_conf c) (e2_src c) (everdict_eqb (e2_verdict c) ESyntax) &&
+  match md with
+  | Some mm =>
+      if creation_rel_ok (meaning_rel mm) then
+        match e2_verdict c with
+        | EPass => list_eqb text_eqb (e2_created c) [pp_str (normalize (denote (e2_env c) mm))] &&
+                   match ms with
+                   | Some m2 => option_eqb N.eqb (e2_read c) (lookup_file (e2_files c) (pp_str (normalize (denote (e2_env c) m2))))
+                   | None => true
+                   end
+        | _ => true
+        end
+      else
+        (* rejected before execution (syntax error or VALIDATION_ERROR); nothing was created *)
+        rejected_before_execution (e2_verdict c) && match e2_created c with [] => true | _ => false end
+  | None => true
+  end.
+
+Definition check_e2case (c : e2case) : bool * bool :=
+  (match model_e2run c with
+   | (v, created, rd, determined) =>
+       if determined then
+         everdict_eqb v (e2_verdict c) && list_eqb text_eqb created (e2_created c) && option_eqb N.eqb rd (e2_read c)
+       else negb (everdict_eqb (e2_verdict c) EPass)
+   end,
+   P_e2case c).
